@@ -523,6 +523,20 @@ func c06JSONTexts() []string {
 	}
 	deep := strings.Repeat(`{"a":`, 10001) + `1` + strings.Repeat(`}`, 10001)
 	texts = append(texts, deep, strings.Repeat("[", 10001))
+	// every one-byte body, and every two- and three-byte body over the bytes that begin or end something
+	// (byte order mark, braces, quote, NUL, 0xFF, blank)
+	for b := 0; b < 256; b++ {
+		texts = append(texts, string([]byte{byte(b)}))
+	}
+	special := []byte{0xEF, 0xBB, 0xBF, '{', '}', '"', 0x00, 0xFF, ' ', 'n'}
+	for _, a := range special {
+		for _, b := range special {
+			texts = append(texts, string([]byte{a, b}))
+			for _, c := range []byte{0xEF, 0xBB, 0xBF, '{', '}'} {
+				texts = append(texts, string([]byte{a, b, c}))
+			}
+		}
+	}
 	return texts
 }
 
